@@ -108,6 +108,7 @@ structure QD where
   cons : List (Nat × String) := []
   bad : Bool := false
   persistent : Bool := false
+  runq : List Nat := []     -- producers woken together by the last Broadcast, in the order the Go scheduler runs them
   mon : Check.Mon := {}
 
 def QD.fireF (d : QD) (l : Label) : Option St := if d.persistent then pfire d.k d.s l else fire d.k d.s l
@@ -155,7 +156,17 @@ def QD.applyLabel (d : QD) (l : Label) : Option QD :=
         else if c ∈ s'.cwait ∨ c ∈ s'.cwoken then setCons d.cons c "B"
         else setCons d.cons c "S"
       | _ => d.cons
-    some { d with s := s', cons := cons }
+    -- `Broadcast` readies the waiters in registration order; with one P the last readied goroutine runs first
+    -- (runnext), the others follow in FIFO order
+    let broadcast := match l with
+      | .complete _ _ | .shutdown | .read _ | .recheck _ => !d.s.waiters.isEmpty && s'.waiters.isEmpty
+      | _ => false
+    let runq := if broadcast then
+        (match d.s.waiters.reverse with
+         | last :: restRev => last :: restRev.reverse
+         | [] => [])
+      else d.runq
+    some { d with s := s', cons := cons, runq := runq }
 
 def QD.closure : Nat → QD → QD
   | 0, d => d
@@ -211,59 +222,50 @@ def QD.detClosure : Nat → QD → QD
       | some d' => QD.detClosure fuel d'
       | none => d
 
-def addDedup (acc : List (String × QD)) (d : QD) : List (String × QD) :=
-  let k := d.key
-  if acc.any (fun x => x.1 == k) then acc else acc ++ [(k, d)]
+/-- producers about to re-lock, in the order to try: the scheduler's run queue first, then the rest -/
+def QD.wokenOrdered (d : QD) : List Nat :=
+  let woken := d.prods.filter (fun p => (d.fireF (.relockTok p)).isSome)
+  (d.runq.filter (fun p => woken.contains p)) ++ woken.filter (fun p => !(d.runq.contains p))
 
-/-- fast path: the whole run to quiescence if at no point two producers are about to re-lock at once -/
-def QD.closureUnique : Nat → QD → Option QD
-  | 0, d => some d
-  | fuel + 1, d =>
+structure SR where
+  budget : Nat
+  found : Option QD := none
+  first : Option QD := none
+
+/-- depth-first over the re-lock orders, the scheduler's order first; stops at the first quiescent outcome whose line
+equals the implementation's, or when the node budget is used up -/
+def QD.search : Nat → QD → String → SR → SR
+  | 0, d, _, r => { r with first := r.first <|> some d }
+  | depth + 1, d, line, r =>
+    if r.found.isSome || r.budget == 0 then r else
     let d := QD.detClosure 10000 d
-    match d.prods.filter (fun p => (d.fireF (.relockTok p)).isSome) with
-    | [] => some d
-    | [p] => (d.applyLabel (.relockTok p)).bind (QD.closureUnique fuel)
-    | _ => none
-
-/-- breadth-first over the re-lock choices -/
-def QD.closureBFS : Nat → List (String × QD) → List (String × QD) → List (String × QD)
-  | 0, frontier, done => frontier.foldl (fun acc x => addDedup acc x.2) done
-  | fuel + 1, frontier, done =>
-    match frontier with
-    | [] => done
-    | _ =>
-      let step := frontier.foldl (fun (acc : List (String × QD) × List (String × QD)) x =>
-        let d := QD.detClosure 10000 x.2
-        let woken := d.prods.filter (fun p => (d.fireF (.relockTok p)).isSome)
-        match woken with
-        | [] => (acc.1, addDedup acc.2 d)
-        | _ => (woken.foldl (fun fr p => match d.applyLabel (.relockTok p) with
-                  | some d' => addDedup fr d'
-                  | none => fr) acc.1, acc.2)) (([] : List (String × QD)), done)
-      QD.closureBFS fuel step.1 step.2
-
-def QD.closureAll (d : QD) : List QD :=
-  match QD.closureUnique 64 d with
-  | some d' => [d']
-  | none => (QD.closureBFS 64 [("", d)] []).map (·.2)
+    match d.wokenOrdered with
+    | [] =>
+      let r := { r with budget := r.budget - 1, first := r.first <|> some d }
+      if d.obs == line then { r with found := some d } else r
+    | woken =>
+      woken.foldl (fun r p =>
+        if r.found.isSome || r.budget == 0 then r else
+        match d.applyLabel (.relockTok p) with
+        | some d' => QD.search depth { d' with runq := d'.runq.erase p } line r
+        | none => r) { r with budget := r.budget - 1 }
 
 structure QH where
   cur : QD := {}
-  cands : List QD := []          -- outcomes of the last label, not resolved yet
+  pend : Option QD := none       -- state after the last label, before the run to quiescence; resolved at its observation
   deferred : List String := []   -- lines to print at the next opportunity
 
 def QH.resolveWith (h : QH) (line : Option String) : QH :=
-  match h.cands with
-  | [] => h
-  | c :: cs =>
-    let chosen := match line with
-      | some l => ((c :: cs).find? (fun x => x.obs == l)).getD c
-      | none => c
-    { h with cur := chosen, cands := [], deferred := h.deferred ++ [chosen.obs] }
+  match h.pend with
+  | none => h
+  | some d =>
+    let r := QD.search 64 d (line.getD "") { budget := 4000 }
+    let chosen := (r.found <|> r.first).getD d
+    { h with cur := chosen, pend := none, deferred := h.deferred ++ [chosen.obs] }
 
 def QH.start (h : QH) (ds : Option (List QD)) : QH :=
   match ds with
-  | some (d :: _) => { h with cands := d.closureAll }
+  | some (d :: _) => { h with pend := some d }
   | _ => { h with cur := { h.cur with bad := true }, deferred := h.deferred ++ ["obs bad-step"] }
 
 def mkQueueHandler (persistent : Bool) : Handler QH where
@@ -302,7 +304,7 @@ def mkQueueHandler (persistent : Bool) : Handler QH where
           let ids := items.map (·.1)
           let s0 : St := { items := items, size := sz, accepted := ids,
                            ps := fun p => if p ∈ ids then { ph := .done .ok } else {} }
-          { h with cands := [{ d with s := s0 }] }
+          { h with pend := some { d with s := s0 } }
         | _, _ => { h with deferred := ["obs bad-op"] }
       | ["read", c] =>
         match c.toNat? with
